@@ -51,6 +51,20 @@ CHECKS = {
              "overflow of the count excluded",
         technique="Lean 4 inductive invariant over an acceptor of hook/API event traces + deterministic simulation of the real runtime",
         design="§5 C02"),
+    "C03": dict(
+        text="Lean 4 theorems about the acceptor model of condition_variable::wait / notify_one / notify_all (cvar_do_wait via "
+             "thread_usleep_defer, waitq::resume_one): once a wait has enqueued its thread the only event accepted next is the unlock of that "
+             "mutex on the waiter's behalf, who must still own it (release-and-wait is one step; the waiter is already in the queue); a "
+             "notifier only ever wakes the head of the queue; notify_one returns 1 and wakes exactly one waiter iff one was present, "
+             "notify_all wakes exactly those present; wait() returns with the lock held and its result is the translation of how the waiter "
+             "was woken (0 iff notified, -1/ETIMEDOUT iff the sleep timed out - by C04 only at or after the deadline). Tied to the code by "
+             "generated programs on the real runtime on a virtual clock with every event validated; an independent API-level oracle (lock held "
+             "at enqueue and at return, notify counts, 0 only if notified) supplies failing programs",
+        note="trusted: Lean kernel + 3 standard axioms; single vCPU; the mutex variant is followed through its hook events, the spinlock "
+             "variant of wait() is exercised by the harness only (no hook on spinlock release yet); cross-vCPU notification races need the "
+             "multi-vCPU harness",
+        technique="Lean 4 theorems over an acceptor of hook/API event traces + deterministic simulation of the real runtime",
+        design="§5 C03"),
     "C04": dict(
         text="Lean 4 theorems about an acceptor model of prepare_usleep / resume_threads / prelocked_thread_interrupt / thread_interrupt / "
              "thread_yield / set_error_number (one event per hook point or API return, any number of threads): in every reachable state a "
